@@ -4,6 +4,7 @@ import (
 	"fmt"
 	"go/types"
 	"path/filepath"
+	"regexp"
 	"strings"
 
 	"github.com/jmattheis/goverter/config/parse"
@@ -54,6 +55,8 @@ type Converter struct {
 	outputPackagePreset bool
 	// nameSet is set once goverter:name was written.
 	nameSet bool
+	// pendingExtends are the extend lines read so far, see parseConverter.
+	pendingExtends []pendingLine
 }
 
 func (c *Converter) typeForMethod() types.Type {
@@ -117,8 +120,31 @@ func parseConverter(ctx *context, rawConverter *RawConverter, global RawLines) (
 
 	resolveOutputPackage(ctx, c)
 
+	// the functions of the extend lines are checked against the output
+	// package: they are resolved once it is known, whatever the order of the
+	// lines was.
+	pending := c.pendingExtends
+	c.pendingExtends = nil
+	for _, p := range pending {
+		// the settings the line depends on are those in effect at the line.
+		contextRegex := c.ArgContextRegex
+		c.ArgContextRegex = p.contextRegex
+		err := parseConverterLine(ctx, c, p.value)
+		c.ArgContextRegex = contextRegex
+		if err != nil {
+			return nil, formatLineError(p.raw, p.source, p.value, err)
+		}
+	}
+
 	err = parseMethods(ctx, rawConverter, c)
 	return c, err
+}
+
+type pendingLine struct {
+	raw          RawLines
+	source       string
+	value        string
+	contextRegex *regexp.Regexp
 }
 
 func resolveOutputPackage(ctx *context, c *Converter) {
@@ -175,6 +201,10 @@ func initConverter(loader *pkgload.PackageLoader, rawConverter *RawConverter) (*
 
 func parseConverterLines(ctx *context, c *Converter, source string, raw RawLines) error {
 	for _, value := range raw.Lines {
+		if cmd, _ := parse.Command(value); cmd == configExtend {
+			c.pendingExtends = append(c.pendingExtends, pendingLine{raw: raw, source: source, value: value, contextRegex: c.ArgContextRegex})
+			continue
+		}
 		if err := parseConverterLine(ctx, c, value); err != nil {
 			return formatLineError(raw, source, value, err)
 		}
@@ -207,7 +237,7 @@ func parseConverterLine(ctx *context, c *Converter, value string) (err error) {
 			c.OutputPackagePath = ""
 		}
 	case "output:format":
-		if len(c.Extend) != 0 {
+		if len(c.Extend) != 0 || len(c.pendingExtends) != 0 {
 			return fmt.Errorf("Cannot change output:format after extend functions have been added.\nMove the extend below the output:format setting.")
 		}
 
